@@ -59,16 +59,19 @@ def r1_termination(ctx, res):
             res.find(key, 'wn/_core.py', f'{k} uses idiom {found[k]}, expected {allowed}')
     # relation_paths must yield only simple paths: candidates filtered against the path's own visited set, which
     # contains the start node
-    rp = ctx.repo.func('_core', '_Relatable.relation_paths')
+    from ..speccheck import view
+    import re as _re
+    v = view(ctx, '_core', '_Relatable.relation_paths')
     key = 'relation_paths:start-in-visited'
-    res.inst(key, rp.module.loc(rp.node), 'initial visited sets contain self and the first target')
-    init_ok = False
-    for n in walk_no_nested(rp.node):
-        if isinstance(n, ast.Set) and {norm(e) for e in n.elts} == {'self', 'target'}:
-            init_ok = True
-    if not init_ok:
-        res.find(key, rp.module.loc(rp.node), 'the initial visited set of relation_paths no longer contains the start entity and the '
-                                              'first target: paths can return to the start (not simple)')
+    first = [r for r in v.rows if r[0] == 'call' and r[3] == ('for self.get_related(*args)',) and '.append(' in r[1]]
+    res.inst(key, v.loc(), f'{[r[1] for r in first]}')
+    ok = len(first) == 1
+    if ok:
+        m = _re.match(r'^#\d+\.append\(\(\[\$1\], \{(.+)\}\)\)$', first[0][1])
+        ok = bool(m) and {x.strip() for x in m.group(1).split(',')} == {'self', '$1'}
+    if not ok:
+        res.find(key, v.loc(), f'the initial visited set of relation_paths no longer contains the start entity and the first target (the '
+                               f'entities themselves): paths can return to the start (not simple): {[r[1] for r in first]}')
     # recursion
     for comp in recursion_cycles(ctx):
         key = 'recursion:' + ','.join(comp)
@@ -297,25 +300,21 @@ def r4_importer_split(ctx, res):
 
 
 def r5_dedupe(ctx, res):
+    from ..speccheck import view, expect
     for cname, it in (('Synset', '_iter_relations'), ('Sense', '_iter_sense_relations')):
-        f = ctx.repo.func('_core', f'{cname}.get_related')
-        key = f'get_related:{cname}'
-        src = Frag(f.node)
-        res.inst(key, f.module.loc(f.node), 'unique_list over the relation iterator with the requested types')
-        if 'unique_list(' not in src or f'self.{it}(*args)' not in src:
-            res.find(key, f.module.loc(f.node), f'{cname}.get_related no longer de-duplicates order-preservingly over self.{it}(*args)')
-        g = ctx.repo.func('_core', f'{cname}.relations')
+        expect(res, f'get_related:{cname}', view(ctx, '_core', f'{cname}.get_related'),
+               [('return', f'unique_list((_2 for _1, _2 in self.{it}(*args)))')],
+               f'{cname}.get_related de-duplicates order-preservingly the targets of self.{it}(*args) (the requested types)')
+        v = view(ctx, '_core', f'{cname}.relations')
         key = f'relations:{cname}'
-        src = Frag(g.node)
-        res.inst(key, g.module.loc(g.node), 'dict-as-ordered-set per relation name')
-        if f'self.{it}(*args)' not in src or 'setdefault(relation.name, {})' not in src:
-            res.find(key, g.module.loc(g.node), f'{cname}.relations no longer groups targets per relation name in an order-preserving mapping '
-                                                f'over self.{it}(*args)')
-    f = ctx.repo.func('_core', 'Sense.get_related_synsets')
-    key = 'get_related_synsets'
-    res.inst(key, f.module.loc(f.node), 'unique_list over _iter_sense_synset_relations(*args)')
-    if 'self._iter_sense_synset_relations(*args)' not in norm(f.node):
-        res.find(key, f.module.loc(f.node), 'Sense.get_related_synsets no longer forwards the requested types')
+        res.inst(key, v.loc(), 'dict-as-ordered-set per relation name')
+        grp = v.find('store', text_re=r'^#\d+\.setdefault\(\$1\[0\]\.name, \{\}\)\[\$1\[1\]\] = True$', ctx=(f'for self.{it}(*args)',))
+        if len(grp) != 1 or grp[0][2]:
+            res.find(key, v.loc(), f'{cname}.relations no longer groups targets per relation name in an order-preserving mapping over '
+                                   f'self.{it}(*args): {v.describe(("store", "call"))[:3]}')
+    expect(res, 'get_related_synsets', view(ctx, '_core', 'Sense.get_related_synsets'),
+           [('return', 'unique_list((_2 for _1, _2 in self._iter_sense_synset_relations(*args)))')],
+           'Sense.get_related_synsets forwards the requested types and de-duplicates order-preservingly')
     ul = ctx.repo.func('_util', 'unique_list')
     key = 'unique_list'
     res.inst(key, ul.module.loc(ul.node), 'dict-based order-preserving de-duplication')
